@@ -392,6 +392,11 @@ public:
   /// return the opposite gap. Similar to Indicator.
   template <class VarVec>
   Violation ComputeViolation(const VarVec& x) {
+    if (x.recomp_vals()) {   // recomputed result vs its bounds,
+      auto bv = x.bounds_viol(GetResultVar());  // e.g., fixed as true
+      if (bv > 0.0)
+        return {bv, x[GetResultVar()]};
+    }
     auto viol = GetConstraint().ComputeViolation(x);
     bool ccon_valid = viol.viol_<=0.0;
     bool has_arg = x[GetResultVar()] >= 0.5;
